@@ -152,6 +152,116 @@ fn variants(t: &mut Tape, plan: &XzPlan) -> Vec<(XzPlan, String, String)> {
     v
 }
 
+/// Two identical consecutive blocks, then the second block's header replaced by
+/// one of the same length that uses an unsupported filter and whose free bits are
+/// solved (`forge_crc32`) so that its CRC32 field is byte for byte the first
+/// header's: a decoder that recognises "the same header again" by size and CRC32
+/// instead of by content decodes the block as LZMA2 and reports success.
+fn forged_twins(t: &mut Tape, plan: &XzPlan) -> Vec<(Vec<u8>, String, String)> {
+    let mut v = Vec::new();
+    let nb = plan.blocks.len();
+    if nb == 0 || nb > 8 {
+        return v;
+    }
+    let bi = t.below(nb as u64) as usize;
+    let mut p = plan.clone();
+    let mut blk = p.blocks[bi].clone();
+    if blk.extra_pad4 > 8 {
+        blk.extra_pad4 = 0;
+    }
+    if t.below(2) == 0 {
+        blk.extra_pad4 = blk.extra_pad4.max(1);
+    }
+    p.blocks[bi] = blk.clone();
+    p.blocks.insert(bi + 1, blk);
+    let built = build_xz(&p);
+    let off = |name: String| built.fields.iter().find(|f| f.name == name).map(|f| f.off);
+    let (Some(s1), Some(c1), Some(s2), Some(c2)) = (
+        off(format!("block{}.size_byte", bi)),
+        off(format!("block{}.header_crc32", bi)),
+        off(format!("block{}.size_byte", bi + 1)),
+        off(format!("block{}.header_crc32", bi + 1)),
+    ) else {
+        return v;
+    };
+    if c1 - s1 != c2 - s2 || built.bytes[s1..c1 + 4] != built.bytes[s2..c2 + 4] {
+        return v;
+    }
+    let n = c2 - s2; // size byte + fields + padding
+    let target = u32::from_le_bytes([built.bytes[c1], built.bytes[c1 + 1], built.bytes[c1 + 2], built.bytes[c1 + 3]]);
+    let bcj = [0x04u8, 0x05, 0x06, 0x07, 0x08, 0x09, 0x0A, 0x0B];
+    let mut cands: Vec<(Vec<u8>, Vec<usize>, String)> = Vec::new();
+    // a BCJ filter alone with a four-byte start offset (free: the offset)
+    let id = bcj[t.below(8) as usize];
+    if n >= 8 {
+        let mut h = vec![0u8; n];
+        h[0] = built.bytes[s2];
+        h[1] = 0x00;
+        h[2] = id;
+        h[3] = 4;
+        cands.push((h, (32..64).collect(), format!("BCJ filter 0x{:02x} alone, start offset forged", id)));
+    }
+    // an unassigned filter with as many property bytes as the header has room for
+    // (free: the last five of them)
+    if n >= 9 {
+        let id = [0x0Cu8, 0x1F, 0x20, 0x22, 0x7F][t.below(5) as usize];
+        let mut h = vec![0u8; n];
+        h[0] = built.bytes[s2];
+        h[2] = id;
+        h[3] = (n - 4) as u8;
+        if n - 4 < 0x80 {
+            cands.push((h, ((n - 5) * 8..n * 8).collect(), format!("unassigned filter 0x{:02x} alone with {} property bytes, the last five forged", id, n - 4)));
+        }
+    }
+    // a BCJ filter in front of LZMA2
+    if n >= 11 {
+        let mut h = vec![0u8; n];
+        h[0] = built.bytes[s2];
+        h[1] = 0x01;
+        h[2] = id;
+        h[3] = 4;
+        h[8] = 0x21;
+        h[9] = 1;
+        h[10] = 22;
+        cands.push((h, (32..64).collect(), format!("BCJ filter 0x{:02x} in front of LZMA2, start offset forged", id)));
+    }
+    // a reserved flag bit, the compressed size field present (free: the 35 payload
+    // bits of a five-byte integer whose top group stays non-zero)
+    if n >= 10 {
+        let mut h = vec![0u8; n];
+        h[0] = built.bytes[s2];
+        h[1] = 0x40 | [0x04u8, 0x08, 0x10, 0x20][t.below(4) as usize];
+        for k in 2..6 {
+            h[k] = 0x80;
+        }
+        h[6] = 0x40;
+        h[7] = 0x21;
+        h[8] = 1;
+        h[9] = 22;
+        let mut free: Vec<usize> = (2..6).flat_map(|b| (0..7).map(move |k| b * 8 + k)).collect();
+        free.extend((0..6).map(|k| 6 * 8 + k));
+        cands.push((h, free, String::new()));
+        let last = cands.last_mut().unwrap();
+        last.2 = format!("reserved block flag bits 0x{:02x} with a forged five-byte compressed size", last.0[1] & 0x3C);
+    }
+    for (mut h, free, what) in cands {
+        if !crate::refmodel::crc::forge_crc32(&mut h, &free, target) {
+            continue;
+        }
+        let mut bytes = built.bytes.clone();
+        bytes[s2..c2].copy_from_slice(&h);
+        if ref_xz_decode(&bytes).is_ok() {
+            continue; // the harness's own decoder must refuse it too
+        }
+        v.push((
+            bytes,
+            "forged_twin_header".to_string(),
+            format!("block {} repeats block {} except for its header: {}; same length and same CRC32 field 0x{:08x} as the header before", bi + 1, bi, what, target),
+        ));
+    }
+    v
+}
+
 fn exec_one(sc: &Scenario, ctx: &mut Ctx) -> Vec<Violation> {
     ctx.begin(sc);
     let mut out = Vec::new();
@@ -256,6 +366,20 @@ impl Property for C18 {
                         return r;
                     }
                 }
+            }
+        }
+        for (bytes, _locus, note) in forged_twins(t, &plan) {
+            let mut sc = Scenario::new("c18");
+            case_no += 1;
+            if !scripts[case_no % 4].is_empty() {
+                sc.set_l("src_script", scripts[case_no % 4].clone());
+            }
+            sc.set_b("input", bytes);
+            sc.note = format!("forged_twin_header | {}", note);
+            ctx.stats.hit("fault.fired.unsupported_header_with_the_previous_headers_crc32");
+            let r = exec_one(&sc, ctx);
+            if !r.is_empty() {
+                return r;
             }
         }
         Vec::new()
